@@ -42,11 +42,17 @@ ASSUMPTIONS = [
     "leading shapes generated: none, (1,), (N,), (2,N) with N in {2,3}; operands of one call share the dtype",
 ]
 
+
 def floor_aa(theta: float) -> float:
     """2 x the derived error of angle_axis_to_rotation_matrix caused by its 1e-6 regularisation (see ASSUMPTIONS)."""
-    if theta * theta <= 1e-6 * (1 + 1e-6):
-        return theta * theta + 1e-12
-    return 2e-6 * (2 * (1 - math.cos(theta)) + abs(math.sin(theta))) / (theta + 1e-6)
+    t2 = theta * theta
+    taylor = t2                                           # first-order branch, taken for theta^2 <= 1e-6
+    normal = 2e-6 * (2 * (1 - math.cos(theta)) + abs(math.sin(theta))) / (theta + 1e-6)
+    if t2 < 1e-6 * (1 - 1e-3):
+        return taylor
+    if t2 > 1e-6 * (1 + 1e-3):
+        return normal
+    return max(taylor, normal)                            # branch decided by rounding of theta^2 in the tested dtype
 
 
 FLOOR_M2Q = 4e-8    # rotation_matrix_to_quaternion eps (derived above)
@@ -61,17 +67,16 @@ def selftest():
     """Cross-check the numpy reference formulas against scipy (independent third party)."""
     from scipy.spatial.transform import Rotation
 
-    rs = np.random.RandomState(7)
-    for _ in range(20):
-        a = rs.uniform(-math.pi, math.pi, 3)
+    for i in range(20):
+        a = hash_noise((3,), 3 * i, -math.pi, math.pi)
         for o in ORDERS:
             # scipy upper-case = intrinsic = product of elementary rotations left to right
             d = np.abs(Rotation.from_euler(o.upper(), a).as_matrix() - ref.euler_matrix(a, o)).max()
             assert d < 1e-13, ("euler", o, d)
-        q = rs.normal(size=4)
+        q = hash_noise((4,), 3 * i + 1, -1.0, 1.0)
         d = np.abs(Rotation.from_quat([q[1], q[2], q[3], q[0]]).as_matrix() - ref.quaternion_matrix(q)).max()
         assert d < 1e-13, ("quat", d)
-        v = rs.normal(size=3)
+        v = hash_noise((3,), 3 * i + 2, -2.0, 2.0)
         d = np.abs(Rotation.from_rotvec(v).as_matrix() - ref.axis_angle_matrix(v)).max()
         assert d < 1e-13, ("rotvec", d)
     assert np.abs(ref.rot2(0.3) - ref.rotz(0.3)[:2, :2]).max() == 0
@@ -134,6 +139,18 @@ def np_apply(f: np.ndarray, p: np.ndarray, vectors: bool = False) -> np.ndarray:
     if not vectors:
         y = y + f[..., None, :, D]
     return y
+
+
+def ufloat(lo: float, hi: float, nd: int = 3):
+    """Evenly spread floats in [lo, hi): golden-ratio scramble of a drawn integer. Hypothesis draws integers with a strong
+    bias towards 0 and the interval ends; generic (non-degenerate) values need a spread that does not depend on that bias."""
+    return st.integers(0, 10 ** 6).map(lambda k: round(lo + (hi - lo) * ((k * 0.6180339887498949) % 1.0), nd))
+
+
+def mixed(lo: float, hi: float, step: float = 0.01):
+    """Mostly evenly spread values, some lattice values (which shrink to and favour round numbers / interval ends)."""
+    u = ufloat(lo, hi)
+    return st.one_of(u, u, u, gen.qfloat(lo, hi, step))
 
 
 def operand_strategy(batches=("none", "1", "N")):
@@ -443,8 +460,8 @@ def order_string(order: str, notation: str):
 
 def angle_strategy():
     special = st.sampled_from([0.0, math.pi, math.pi / 2, -math.pi / 2, 3.141, -3.141])
-    g = gen.angles()
-    return st.one_of(g, g, g, g, g, g, g, special)
+    u = ufloat(-3.141, 3.141)          # 3 decimals, strictly inside (-pi, pi)
+    return st.one_of(u, u, u, u, u, gen.angles(), gen.angles(), special)
 
 
 ANGLE_SHAPES_3D = ("3", "N3", "AB3")
@@ -484,13 +501,17 @@ def euler_reference(D, order, angles):
     return np.stack([ref.euler_matrix(a, order or "zxz") for a in angles])
 
 
-def generic_angles(angles) -> bool:
-    for row in angles:
-        for a in row:
-            r = abs(a) % (math.pi / 2)
-            if min(r, math.pi / 2 - r) < 0.05:
-                return False
+def generic_row(row) -> bool:
+    for a in row:
+        r = abs(a) % (math.pi / 2)
+        if min(r, math.pi / 2 - r) < 0.05:
+            return False
     return True
+
+
+def generic_angles(angles) -> bool:
+    """Some item has no angle within 0.05 of a multiple of pi/2 (such an item separates all conventions)."""
+    return any(generic_row(row) for row in angles)
 
 
 def run_euler(case):
@@ -551,7 +572,7 @@ def run_euler(case):
 
 def lock_free_angle():
     """Second Euler angle with |sin| >= sin(0.05): (0.05, pi-0.05) or its negative."""
-    pos = gen.qfloat(0.05, math.pi - 0.05, 1e-3)
+    pos = st.one_of(ufloat(0.05, math.pi - 0.05), ufloat(0.05, math.pi - 0.05), gen.qfloat(0.05, math.pi - 0.05, 1e-3))
     return st.one_of(pos, pos, pos.map(lambda a: -a))
 
 
@@ -618,7 +639,7 @@ def run_roundtrip(case):
     if tuple(M.shape) != lead + (D, D):
         raise Violation(kind, f"euler_rotation_matrix(euler_rotation_angles(R)) has shape {tuple(M.shape)}, R has {lead + (D, D)}")
     worst = max(worst, check_close(M, Rcast, 2 * bound, kind, f"order={ostr!r}: euler_rotation_matrix(euler_rotation_angles(R)) != R"))
-    return {"ratio": worst, "nontrivial": generic_angles(angles) and (D == 2 and angles[0][0] < 0 or D == 3),
+    return {"ratio": worst, "nontrivial": (D == 3 and generic_angles(angles)) or (D == 2 and any(generic_row(r) and r[0] < 0 for r in angles)),
             "labels": labels + ["implemented"]}
 
 
@@ -636,7 +657,7 @@ def repr_cases(draw):
     kind = draw(st.sampled_from(["q", "v"]))
     mode = draw(st.sampled_from(["single", "N", "N", "AB"]))
     n = {"single": 1, "N": draw(st.integers(1, 3)), "AB": 4}[mode]
-    comp = gen.qfloat(-1.0, 1.0, 0.01)
+    comp = mixed(-1.0, 1.0)
     items = []
     for _ in range(n):
         if kind == "q":
@@ -648,7 +669,7 @@ def repr_cases(draw):
             ax = draw(st.lists(comp, min_size=3, max_size=3))
             if sum(x * x for x in ax) < 0.01:
                 ax = [0.0, 0.0, 1.0]
-            th = draw(st.one_of(gen.qfloat(0.0, math.pi - 0.01, 1e-3), gen.qfloat(0.0, math.pi - 0.01, 1e-3),
+            th = draw(st.one_of(ufloat(0.0, math.pi - 0.01), ufloat(0.0, math.pi - 0.01), gen.qfloat(0.0, math.pi - 0.01, 1e-3),
                                 st.sampled_from([0.0, 1e-4, 5e-4, 2e-3, math.pi / 2, math.pi - 0.01])))
             items.append(ax + [th])
     return {"kind": kind, "items": items, "mode": mode, "dtype": draw(gen.dtypes()),
@@ -676,7 +697,7 @@ def run_reprs(case):
     labels = [case["kind"], case["dtype"], "shape=" + mode]
 
     def shaped(arr, tail):  # (n,) + tail -> lead + tail
-        return torch.tensor(np.asarray(arr).reshape(lead + tail), dtype=dt)
+        return torch.tensor(np.ascontiguousarray(np.asarray(arr).reshape(lead + tail)), dtype=dt).contiguous()
 
     def T(x, tail, kind, what):  # result of documented shape lead + tail -> (n,) + tail numpy
         if tuple(x.shape) != lead + tail:
@@ -717,6 +738,7 @@ def run_reprs(case):
         # matrix -> quaternion / angle axis (input: reference matrix of q)
         if case.get("layout") == "transposed":
             Rt = shaped(np.swapaxes(R, 1, 2), (3, 3)).transpose(-1, -2)    # same values, non-contiguous memory
+            assert not Rt.is_contiguous()
             labels.append("layout=transposed")
         else:
             Rt = shaped(R, (3, 3))
@@ -788,7 +810,7 @@ def setter_cases(draw):
             case["values"] = [[draw(angle_strategy())] for _ in range(N)]
     elif cls == "QuaternionRotation":
         case["op"] = draw(st.sampled_from(["params", "matrix", "ctor"]))
-        comp = gen.qfloat(-2.0, 2.0, 0.01)
+        comp = mixed(-2.0, 2.0)
         vals = []
         for _ in range(N):
             q = draw(st.lists(comp, min_size=4, max_size=4))
@@ -799,20 +821,20 @@ def setter_cases(draw):
     elif cls in ("IsotropicScaling", "AnisotropicScaling"):
         case["op"] = draw(st.sampled_from(["params", "ctor"]))
         k = 1 if cls == "IsotropicScaling" else D
-        s = gen.qfloat(0.4, 2.7, 0.01) if (held == "parameter" and case["op"] == "params") else \
-            st.one_of(gen.qfloat(0.05, 20.0, 0.01), gen.qfloat(-20.0, 20.0, 0.01))
+        s = mixed(0.4, 2.7) if (held == "parameter" and case["op"] == "params") else \
+            st.one_of(mixed(0.05, 20.0), mixed(-20.0, 20.0))
         case["values"] = [draw(st.lists(s, min_size=k, max_size=k)) for _ in range(N)]
     elif cls == "Shearing":
         case["op"] = draw(st.sampled_from(["params", "ctor"]))
         k = 1 if D == 2 else 3
-        s = gen.qfloat(-0.78, 0.78, 0.01) if (held == "parameter" and case["op"] == "params") else gen.qfloat(-1.4, 1.4, 0.01)
+        s = mixed(-0.78, 0.78) if (held == "parameter" and case["op"] == "params") else mixed(-1.4, 1.4)
         case["values"] = [draw(st.lists(s, min_size=k, max_size=k)) for _ in range(N)]
     elif cls == "Translation":
         case["op"] = draw(st.sampled_from(["params", "ctor"]))
-        case["values"] = [draw(st.lists(gen.qfloat(-50.0, 50.0, 0.01), min_size=D, max_size=D)) for _ in range(N)]
+        case["values"] = [draw(st.lists(mixed(-50.0, 50.0), min_size=D, max_size=D)) for _ in range(N)]
     else:
         case["op"] = draw(st.sampled_from(["matrix", "ctor"]))
-        case["values"] = [draw(st.lists(gen.qfloat(-5.0, 5.0, 0.01), min_size=D * (D + 1), max_size=D * (D + 1))) for _ in range(N)]
+        case["values"] = [draw(st.lists(mixed(-5.0, 5.0), min_size=D * (D + 1), max_size=D * (D + 1))) for _ in range(N)]
     return case
 
 
@@ -979,27 +1001,27 @@ FACETS = [
     Facet("hmm_forms", run_hmm, strategy=hmm_cases, enumerate=hmm_enumeration, exhaustive_tiers=("quick", "thorough"),
           rule="all 9 ordered form pairs x batch {none,1,N}^2 x D{2,3} enumerated (162 cases) + generated entries, leading shape (2,N), "
                "third operand; non-trivial = some operand with leading size > 1",
-          quick=500, thorough=12000, shards=8, quick_shards=2),
+          quick=1000, thorough=40000, shards=16, quick_shards=2),
     Facet("as_matrix", run_as_matrix, strategy=as_matrix_cases, enumerate=as_matrix_enumeration, exhaustive_tiers=("quick", "thorough"),
           rule="forms x batch {none,1,N,(2,N)} x offset {none,scalar,(D,),batched} x D enumerated (96) + generated; non-trivial = leading size > 1",
-          quick=300, thorough=6000, shards=4),
+          quick=600, thorough=20000, shards=8),
     Facet("vectors", run_vectors, strategy=vector_cases,
           rule="transform form x batch {none,1,N}, point shapes (D,), (1,k,D), (N,k,D), (N,a,b,D); non-trivial = transform has a translation part > 0.1",
-          quick=400, thorough=8000, shards=4),
+          quick=700, thorough=20000, shards=8),
     Facet("euler", run_euler, strategy=euler_cases, enumerate=euler_enumeration, exhaustive_tiers=("quick", "thorough"),
           rule="12 orders x {lower, upper, 'Rz o Rx o Rz'} x angle shapes {(3,), (N,3), (A,B,3)} x homogeneous enumerated (216) + generated "
-               "angles in (-pi, pi] incl. 0, +-pi/2, pi; 2-D scalar/tensor angles; non-trivial = no angle within 0.05 of a multiple of pi/2 and N > 1",
-          quick=500, thorough=12000, shards=8, quick_shards=2),
+               "angles in (-pi, pi] incl. 0, +-pi/2, pi; 2-D scalar/tensor angles; non-trivial = N > 1 and some item with no angle within 0.05 of a multiple of pi/2",
+          quick=1000, thorough=40000, shards=16, quick_shards=2),
     Facet("euler_roundtrip", run_roundtrip, strategy=roundtrip_cases,
           rule="matrices built by the numpy reference from angles with |sin(second)| >= sin(0.05); orders ZXZ, XZX, default and 2-D must "
-               "round trip, other orders must raise NotImplementedError or round trip; non-trivial = generic angles (2-D: negative angle)",
-          quick=500, thorough=10000, shards=8, quick_shards=2),
+               "round trip, other orders must raise NotImplementedError or round trip; non-trivial = some item with generic angles (2-D: negative generic angle)",
+          quick=1000, thorough=40000, shards=16, quick_shards=2),
     Facet("rotation_reprs", run_reprs, strategy=repr_cases,
           rule="unit quaternions (any sign of w) and rotation vectors with angle in [0, pi-0.01]; all conversions compared as rotation "
                "matrices via numpy formulas; non-trivial = N > 1 and (q: some w < 0, all |w| > 0.05 | v: all angles > 0.05)",
-          quick=500, thorough=10000, shards=8, quick_shards=2),
+          quick=1000, thorough=40000, shards=16, quick_shards=2),
     Facet("setters", run_setters, strategy=setter_cases,
           rule="EulerRotation/QuaternionRotation/Iso-/AnisotropicScaling/Shearing/Translation/HomogeneousTransform, Parameter- and "
                "tensor-held, setter/getter, matrix_(), constructor; non-trivial = generic values and N > 1",
-          quick=500, thorough=10000, shards=8, quick_shards=2),
+          quick=1000, thorough=40000, shards=16, quick_shards=2),
 ]
